@@ -53,7 +53,7 @@ def generate(rng, run, tier):
         plan["knobs"]["frame_rows"] = rng.choice([1, 2, 3, 5, 8])
     plan.pop("interleave", None)
     plan["consumer"] = rng.choice(["flat", "flat", "grouped"])
-    plan["frontend"] = rng.choice(["bytesio", "raw", "buffered"])
+    plan["frontend"] = rng.choice(["bytesio", "raw", "buffered", "duck", "rwpair"])
     plan["fault"] = "cut" if plan["frontend"] == "bytesio" else rng.choice(["cut", "reset"])
     return plan
 
